@@ -20,6 +20,7 @@ CONSTANTS
   HandlerIds = {1}
   Kinds = {"tmr"}
   Keys = {1}
+  BadKeys = {}
   SrcOpts <- Opts_plain
   EvKinds = {"ps", "tb", "tmr"}
   MaxBatch = 2
